@@ -17,7 +17,12 @@ use std::sync::atomic::{AtomicBool, AtomicU64, Ordering};
 use std::sync::{Arc, Mutex};
 use std::time::{Duration, Instant};
 
-pub const VERIF_ROOT: &str = "/verif";
+/// Root of the verification tree (evidence, replays, corpus, known findings). Always /verif for the
+/// registered commands; the mutant-evaluation slots (tools/slot.sh) point it elsewhere.
+pub static VERIF_ROOT_DEFAULT: &str = "/verif";
+pub fn verif_root() -> String {
+    std::env::var("PV_ROOT").unwrap_or_else(|_| VERIF_ROOT_DEFAULT.to_string())
+}
 
 #[derive(Clone, Copy, Debug, PartialEq, Eq)]
 pub enum Tier {
@@ -366,7 +371,7 @@ pub struct KnownFinding {
 }
 
 pub fn load_known_findings() -> Vec<KnownFinding> {
-    let path = Path::new(VERIF_ROOT).join("known_findings.txt");
+    let path = Path::new(&verif_root()).join("known_findings.txt");
     let mut out = vec![];
     if let Ok(s) = std::fs::read_to_string(path) {
         for line in s.lines() {
@@ -447,7 +452,7 @@ pub fn jobs() -> usize {
 }
 
 pub fn replay_dir(id: &str) -> PathBuf {
-    let d = Path::new(VERIF_ROOT).join("replays").join(id);
+    let d = Path::new(&verif_root()).join("replays").join(id);
     let _ = std::fs::create_dir_all(&d);
     d
 }
@@ -651,7 +656,7 @@ pub fn drive<K: Check>(check: K, args: RunArgs) -> i32 {
 
     // corpus
     let mut corpus: Vec<K::Case> = check.builtin_corpus();
-    let cdir = Path::new(VERIF_ROOT).join("corpus").join(id);
+    let cdir = Path::new(&verif_root()).join("corpus").join(id);
     if let Ok(rd) = std::fs::read_dir(&cdir) {
         let mut files: Vec<_> = rd.filter_map(|e| e.ok()).map(|e| e.path()).collect();
         files.sort();
@@ -876,7 +881,7 @@ pub fn drive<K: Check>(check: K, args: RunArgs) -> i32 {
         "wall_s": t0.elapsed().as_secs_f64(),
         "violations": if failure.is_some() { 1 } else { 0 },
     });
-    let evdir = Path::new(VERIF_ROOT).join("evidence");
+    let evdir = Path::new(&verif_root()).join("evidence");
     let _ = std::fs::create_dir_all(&evdir);
     if std::env::var("PV_NO_EVIDENCE").is_err() {
         let _ = std::fs::write(
